@@ -98,10 +98,10 @@ time = 0 bind time
 
 [memb]
 dot({s1}) = -{inter} + gate.{s2} * {p2} - {s1} * 0.5
-    in [mV]
+    in [nM]
 {inter} = {mmt_expr(e_inter).replace(s2, 'gate.' + s2).replace(s3, 'gate.' + s3).replace(p1, 'gate.' + p1)}
 {p2} = 2.5
-    in [mS/uF]
+    in [pS/nF]
 {probe_def}dot(w_dup) = -k_loc * w_dup + {s1} * 0.1{probe_use}
     k_loc = 1.5 + 0.1 * {s1}
 
@@ -226,6 +226,17 @@ def back_to_myokit(rep, ode, label, src_model=None, text=None):
         if s.unit_str and v.unit() is None:
             rep.violation(f"{label}: converted back to Myokit, the unit {s.unit_str!r} of {s.name} is lost", {"kind": "direct", "label": label, "text": text})
             return
+    if src_model is not None:
+        # units as Myokit knows them, multiplier included ([uV] is [V (1e-06)]), for every variable of the source model that has one
+        for vs in src_model.variables(deep=True):
+            if vs.unit() is None:
+                continue
+            nm = vs.uname() + "_" if vs.uname() in reserved_names else vs.uname()
+            v = vals.get(nm)
+            if v is not None and v.unit() != vs.unit():
+                rep.violation(f"{label}: converted back to Myokit, {nm} has unit {v.unit()} where the imported model has {vs.unit()}",
+                              {"kind": "direct", "label": label, "text": text})
+                return
     for p_ in ode.parameters:
         v = vals.get(p_.name)
         if v is None or not math.isclose(float(v.eval()), float(p_.value), rel_tol=1e-12):
@@ -310,7 +321,9 @@ def main(argv=None):
                 return
             r = compare_with_myokit(rep, model, None, f"generated #{i}", text=text, rng=rng)
             if r is not None:
-                back_to_myokit(rep, r[0], f"generated #{i} -> myokit")
+                _src = model.clone()
+                _src.create_unique_names()
+                back_to_myokit(rep, r[0], f"generated #{i} -> myokit", _src, text)
         core.guarded(rep, text, generated)
         rep.case(key=text, nontrivial=True)
         rep.sample({"mmt": text}, limit=2)
